@@ -50,6 +50,24 @@ def gen_cases(ctx, rng):
                 t += gap
             stats["two_in_series"] += 1
         cases.append(c)
+    # connections established AFTER the toxic was updated through the API (or added later): still no throttling - a burst is delayed once
+    stats["updated_before_connect"] = 0
+    for i in range(24 if ctx.tier == "quick" else 600):
+        Lms = rng.choice([20, 100, 400])
+        chain = [L.tx("latency", name="l", latency=rng.choice([Lms, 1]), jitter=0)]
+        how = rng.choice(["update", "update_twice", "add"])
+        if how == "add":
+            ops = [{"at": 1 * L.MS, "op": "add", "toxic": L.tx("latency", name="l9", latency=0, jitter=0)},
+                   {"at": 2 * L.MS, "op": "update", "name": "l", "body": '{"attributes": {"latency": %d}}' % Lms}]
+        else:
+            ops = [{"at": (k + 1) * L.MS, "op": "update", "name": "l", "body": '{"attributes": {"latency": %d}}' % Lms}
+                   for k in range(2 if how == "update_twice" else 1)]
+        t0 = 10 * L.MS + rng.range(1, 20) * L.MS
+        src = [{"at": t0, "n": rng.range(1, 2000)} for _ in range(rng.choice([5, 20, 120]))]
+        src.append({"at": t0 + 20 * Lms * L.MS, "close": True})
+        cases.append({"dir": rng.choice(["upstream", "downstream"]), "chain": chain, "src": src, "ops": ops, "links": 1, "link_start": [8 * L.MS],
+                      "horizon": 3600 * 1000 * L.MS, "seed": 4000 + i, "expect_latency": Lms, "updated_before_connect": True})
+        stats["updated_before_connect"] += 1
     return cases, stats
 
 
@@ -64,6 +82,8 @@ def oracle(case, res):
     lats = [t for t in case["chain"] if t["type"] == "latency"]
     lo = sum(max(0, t["attributes"]["latency"] - t["attributes"]["jitter"]) for t in lats) * L.MS
     hi = sum(t["attributes"]["latency"] + t["attributes"]["jitter"] for t in lats) * L.MS
+    if case.get("updated_before_connect"):
+        lo = hi = case["expect_latency"] * L.MS          # the values in effect when the connection was established
     writes = [e for e in case["src"] if not e.get("close") and e["n"] > 0]
     ws = res["writes"] or []
     if len(ws) != len(writes):
@@ -92,12 +112,13 @@ def run(ctx):
         classify=lambda w: "too-early" if "earlier" in w else ("too-late" if "later" in w else ("stream" if "bytes" in w or "content" in w else "crash")),
         rule="one latency toxic (latency from {0,1,5,20,100,250} ms, jitter 0 or up to 300 ms with draws mirrored from the seed) at positions "
              "1-3 among noops; single pieces, bursts (one of them 1100 chunks, beyond the 1024 buffer), paced traffic, pauses; some with a second "
-             "latency toxic in series and arrivals far apart; non-trivial = at least two pieces and latency + jitter > 0; distinct by JSON",
+             "latency toxic in series and arrivals far apart; plus connections established after the toxic was updated (once, twice) or a further "
+             "toxic was added through the API, carrying a burst of 5-120 pieces; non-trivial = at least two pieces and latency + jitter > 0; distinct by JSON",
         nontrivial=lambda c: len(c["src"]) > 2 and any(t["type"] == "latency" and t["attributes"]["latency"] + t["attributes"]["jitter"] > 0 for t in c["chain"]),
         assumptions=["math/rand.Int63n(n) in [0,n), mirrored from the same seed",
                      "known finding F6: two latency toxics in series under-delay a piece that waited behind another (theorem C08_series_refuted); "
                      "the generator keeps series cases apart so that they are judged, and the under-delay itself is replayed as a known finding"],
-        known_class=known_class)
+        known_class=known_class, model_filter=lambda c: not c.get("ops"))
 
 
 def replay(ctx, path):
